@@ -32,7 +32,7 @@ BSV == Mk("BS", <<<<1>>, <<2>>>>)
 Reps == { SAB, Num(1), Num(2), Bin(<<1>>), Bool(TRUE), Bool(FALSE), NullV, LV, MV, SSV, NSV, BSV }
 \* bystanders of several types: they must come back unchanged from every update
 Keep == [ks |-> Str(<<122>>), kn |-> Num(7), km |-> Mk("M", [q |-> Num(1)]), kl |-> Mk("L", <<Str(<<122>>)>>), kb |-> Bool(FALSE), knull |-> NullV,
-         kss |-> Mk("SS", <<<<122>>>>)]
+         kss |-> Mk("SS", <<<<122>>>>), kbin |-> Bin(<<>>), kstr |-> Str(<<>>)]
 ItemsA == { Keep } \cup { Keep @@ [a |-> v] : v \in Reps }
 WithB == { it @@ [b |-> Num(2)] : it \in ItemsA }
 
@@ -111,13 +111,29 @@ CaseCases ==
      \cup { Case(AddU(P(n), Val(":v")), it, <<>>, V1(Num(2))) : n \in {"st", "St", "sT"} }
      \cup { Case(SetU(P("c"), Val(ph)), it, <<>>, [x \in {ph} |-> IF x = ":v" THEN Num(2) ELSE Num(3)]) : ph \in {":v", ":V"} }
      \cup { Case(SetU(<<A_(ph)>>, Val(":v")), it, [x \in {ph} |-> IF x = "#n" THEN "a" ELSE "A"], V1(Num(2))) : ph \in {"#n", "#N"} }
+\* clauses of one expression all address the PRE-update positions of a list: REMOVE l[0] does not shift what l[1] means for a later clause
+ListPosCases ==
+  LET it == Keep @@ [lst |-> Mk("L", <<Str(<<97>>), Str(<<98>>), Str(<<99>>)>>)]
+  IN { Case([NoUpd EXCEPT !.remove = <<<<N_("lst"), I_(0)>>>>, !.set = <<[p |-> <<N_("lst"), I_(1)>>, v |-> Val(":v")]>>], it, <<>>, V1(SAB)),
+       Case([NoUpd EXCEPT !.remove = <<<<N_("lst"), I_(0)>>>>, !.set = <<[p |-> P("x"), v |-> PathOf(<<N_("lst"), I_(1)>>)]>>], it, <<>>, <<>>),
+       Case([NoUpd EXCEPT !.remove = <<<<N_("lst"), I_(0)>>, <<N_("lst"), I_(2)>>>>], it, <<>>, <<>>),
+       Case([NoUpd EXCEPT !.remove = <<<<N_("lst"), I_(1)>>>>, !.set = <<[p |-> <<N_("lst"), I_(2)>>, v |-> PathOf(<<N_("lst"), I_(0)>>)]>>], it, <<>>, <<>>) }
+\* the same with the clauses written in another order than the printer of the harness uses (REMOVE first): text cases
+ListPosTexts ==
+  LET it == Keep @@ [lst |-> Mk("L", <<Str(<<97>>), Str(<<98>>), Str(<<99>>)>>)]
+      TC(text, values) == [op |-> "ApplyText", text |-> text, item |-> it, names |-> <<>>, values |-> values, strict |-> TRUE]
+  IN { TC(<<82,69,77,79,86,69,32,108,115,116,91,48,93,32,83,69,84,32,108,115,116,91,49,93,32,61,32,58,118>>, V1(SAB)),
+       TC(<<82,69,77,79,86,69,32,108,115,116,91,48,93,32,83,69,84,32,120,32,61,32,108,115,116,91,49,93>>, <<>>),
+       TC(<<82,69,77,79,86,69,32,108,115,116,91,49,93,32,83,69,84,32,108,115,116,91,50,93,32,61,32,108,115,116,91,48,93>>, <<>>),
+       TC(<<65,68,68,32,107,110,32,58,110,32,82,69,77,79,86,69,32,108,115,116,91,48,93,32,83,69,84,32,108,115,116,91,50,93,32,61,32,58,118>>, [x \in {":v", ":n"} |-> IF x = ":v" THEN SAB ELSE Num(1)]),
+       TC(<<82,69,77,79,86,69,32,108,115,116,91,48,93,44,32,108,115,116,91,50,93,32,83,69,84,32,120,32,61,32,108,115,116,91,49,93>>, <<>>) }
 \* right-hand sides read the PRE-update item
 PreStateCases ==
      { Case([NoUpd EXCEPT !.set = <<[p |-> P("a"), v |-> Path("b")], [p |-> P("b"), v |-> Path("a")]>>], it, <<>>, <<>>) : it \in { x \in WithB : "a" \in DOMAIN x } }
   \cup { Case([NoUpd EXCEPT !.set = <<[p |-> P("kn"), v |-> [k |-> "plus", l |-> Path("kn"), r |-> Val(":v")]], [p |-> P("c"), v |-> Path("kn")]>>], Keep, <<>>, V1(Num(1))) }
   \cup { Case([NoUpd EXCEPT !.set = <<[p |-> P("c"), v |-> Path("ks")]>>, !.remove = <<P("ks")>>], Keep, <<>>, <<>>) }
 
-Cases == SharedOperandCases \cup SharedListCases \cup AliasCases \cup CaseCases \cup SetCases \cup NestedCases \cup RemoveCases \cup AddCases \cup DeleteCases \cup MultiCases \cup PreStateCases
+Cases == ListPosCases \cup ListPosTexts \cup SharedOperandCases \cup SharedListCases \cup AliasCases \cup CaseCases \cup SetCases \cup NestedCases \cup RemoveCases \cup AddCases \cup DeleteCases \cup MultiCases \cup PreStateCases
 ASSUME \A c \in Cases : PrintT(ToJson(c))
 ASSUME PrintT(ToJson([kind |-> "count", n |-> Cardinality(Cases)]))
 VARIABLE dummy
